@@ -94,6 +94,28 @@ def empty_test(test: ast.AST, pol: bool = True) -> Optional[Tuple[ast.AST, bool]
 CHILD_ATTRS = ('children', 'all_children')
 
 
+def bool_ifexp(t: ast.AST) -> ast.AST:
+    """conditional expressions with a constant truth value in one branch as and / or (a folded predicate helper
+    `if c: return False; return d` reads `False if c else d`):  False if c else d = not c and d | True if c else d = c or d |
+    d if c else False = c and d | d if c else True = not c or d"""
+    if isinstance(t, ast.UnaryOp) and isinstance(t.op, ast.Not):
+        return ast.copy_location(ast.UnaryOp(op=ast.Not(), operand=bool_ifexp(t.operand)), t)
+    if isinstance(t, ast.BoolOp):
+        return ast.copy_location(ast.BoolOp(op=t.op, values=[bool_ifexp(v) for v in t.values]), t)
+    if isinstance(t, ast.IfExp):
+        c, a, b = bool_ifexp(t.test), bool_ifexp(t.body), bool_ifexp(t.orelse)
+        neg = ast.UnaryOp(op=ast.Not(), operand=c)
+        for x, other, when_true in ((a, b, True), (b, a, False)):
+            if isinstance(x, ast.Constant) and isinstance(x.value, bool):
+                guard = (neg if when_true else c)           # the condition under which `other` decides
+                if x.value:
+                    out = ast.BoolOp(op=ast.Or(), values=[c if when_true else neg, other])
+                else:
+                    out = ast.BoolOp(op=ast.And(), values=[guard, other])
+                return ast.fix_missing_locations(ast.copy_location(out, t))
+    return t
+
+
 def leaf_test(test: ast.AST, pol: bool = True) -> Optional[Tuple[ast.AST, bool]]:
     """(task expr, is_leaf) for an emptiness test of X.children / X.all_children"""
     et = empty_test(test, pol)
@@ -375,7 +397,7 @@ class RelEval:
         """narrow env by a condition: leaf tests of a bound variable / the task parameter become filters; every other
         atom is returned as a pending condition (text, tested expr of an `is not None` test or None)"""
         pend = []
-        for a, p in facts.split_conj(test, pol):
+        for a, p in facts.split_conj(bool_ifexp(test), pol):
             lt = leaf_test(a, p)
             if lt and isinstance(lt[0], ast.Name) and lt[0].id not in env and lt[0].id in self._worklists.values() \
                     and self._at is not None:
